@@ -2,8 +2,8 @@
 import inv, term, scopes
 
 
-def run(ctx, F, entries, optional=(), kinds=None):
-    sc = scopes.scope(F, entries, optional)
+def run(ctx, F, entries, optional=(), kinds=None, with_fmt=False):
+    sc = scopes.scope(F, entries, optional, with_fmt=with_fmt)
     table = {fn: [r for r in rows if r.get("reason") and r["reason"] != "UNREVIEWED"] for fn, rows in inv.load_table("inventory.json").items()}
     sites, st = inv.inventory(ctx, F, sc, table, kinds=kinds)
     tst = term.check_termination(ctx, F, sc, inv.load_table("loops.json"), inv.load_table("recursion.json"))
